@@ -57,3 +57,41 @@ def upd_raises(o):
 SPECS['BaseDiscretizer.update_discretizer'] = FunctionSpec(qual='BaseDiscretizer.update_discretizer', file=FILE, cls='BaseDiscretizerU',
     params=[('self', BDU), ('feature', VAL), ('mode', VAL), ('discarded_value', VAL), ('kept_value', VAL)], modifies=['self'],
     requires=upd_requires, ensures=upd_post, raises={'AssertionError': upd_raises}, locals={'values_orders': DVG})
+
+
+# ------------------------------------------------------------------------------------------------ mode='replace': the group led by `discarded_value` gets `kept_value` as its leader
+def rep_requires(o):
+    s, f = o['self'], o['feature']
+    return And(DVG.has(F(s, 'values_orders'), f), WF(order_of(s, f)), G.Nodup(DVG.keys(F(s, 'values_orders'))), Not(IsNaNVal(F(s, 'str_nan'))), o['mode'] == str_const(REPLACE))
+
+def rep_terms(o):
+    s, f = o['self'], o['feature']; g0 = order_of(s, f)
+    d = If(IsNaNVal(o['discarded_value']), F(s, 'str_nan'), o['discarded_value']); k = o['kept_value']
+    already = If(Has(AllVals(C(g0)), d), And(Has(K(g0), k), Has(grp(g0, k), d)), d == k)       # get_group(d) == kept
+    return s, f, g0, d, k, already
+
+def rep_post(o, n, r):
+    s0, f, g0, d, k, already = rep_terms(o); s1 = n['self']; g1 = order_of(s1, f); x = Const('x_rp', Val)
+    return [
+        ('other_features_orders_unchanged', ForAll([x], Implies(x != f, order_of(s1, x) == order_of(s0, x)), patterns=[order_of(s1, x)])),
+        ('same_features', DVG.keys(F(s1, 'values_orders')) == DVG.keys(F(s0, 'values_orders'))),
+        ('order_stays_well_formed', WF(g1)),
+        ('no_value_lost', same_members_except(g0, g1)),
+        ('nothing_changes_when_already_grouped', Implies(already, g1 == g0)),
+        # the new name leads, the old leader does not; the group holds every former member of the old leader's group (and the new name, and its former members if it led a group)
+        ('new_name_leads_the_members_of_the_old_leader', Implies(Not(already), And(Has(L(g1), k), Not(Has(L(g1), d)), Has(grp(g1, k), k),
+            ForAll([x], Implies(Has(grp(g0, d), x), Has(grp(g1, k), x)), patterns=[Has(grp(g1, k), x)])))),
+        ('a_brand_new_name_takes_the_place_of_the_old_leader', Implies(And(Not(already), Not(Has(AllVals(C(g0)), k))), And(G.Len(L(g1)) == G.Len(L(g0)), G.Idx(L(g1), k) == G.Idx(L(g0), d),
+            ForAll([x], Implies(And(Has(L(g0), x), x != d), G.Idx(L(g1), x) == G.Idx(L(g0), x)), patterns=[G.Idx(L(g1), x)])))),
+        ('other_groups_unchanged', Implies(Not(already), ForAll([x], Implies(And(x != d, x != k), grp(g1, x) == grp(g0, x)), patterns=[grp(g1, x)]))),
+        ('dropna_set_when_missing_values_are_grouped', Implies(IsNaNVal(o['discarded_value']), DVBo.get(F(s1, 'features_dropna'), f) == BoolVal(True))),
+    ]
+
+def rep_raises(o):
+    s, f, g0, d, k, already = rep_terms(o)
+    # refused: the new name is NaN; or (not already grouped and) the old leader is not a leader, or the new name is known only as a non-leader member
+    return Or(IsNaNVal(k), And(Not(already), Or(Not(Has(L(g0), d)), And(Has(AllVals(C(g0)), k), Not(Has(L(g0), k))))))
+
+SPECS['BaseDiscretizer.update_discretizer@replace'] = FunctionSpec(qual='BaseDiscretizer.update_discretizer', name='BaseDiscretizer.update_discretizer@replace', file=FILE, cls='BaseDiscretizerU',
+    params=[('self', BDU), ('feature', VAL), ('mode', VAL), ('discarded_value', VAL), ('kept_value', VAL)], modifies=['self'],
+    requires=rep_requires, ensures=rep_post, raises={'AssertionError': rep_raises}, locals={'values_orders': DVG})
